@@ -178,9 +178,9 @@ def run_instances(sh, insts, nstates, seed):
                     r2 = dict(regs)
                     r2[r] = v & 0xffffffff
                     perts.append(('reg:' + r, dict(regs=r2, flags=flags, hot=hot, fp=fp)))
-            for f in FLAGS:
+            for f in FLAGS + (['ac', 'i_d'] if inst['mn'] in ('pushf', 'pushfd', 'pushfw') else []):
                 f2 = dict(flags)
-                f2[f] ^= 1
+                f2[f] = f2.get(f, 0) ^ 1
                 perts.append(('flag:' + f, dict(regs=regs, flags=f2, hot=hot, fp=fp)))
             for a in mem_probe_addrs(inst, regs)[:40]:
                 h2 = bytearray(hot)
